@@ -8,6 +8,7 @@ package main
 //  * position bookkeeping of the lexer: next/backup keep loc = location of `end`.
 
 import (
+	"fmt"
 	"strings"
 
 	"golang.org/x/tools/go/ssa"
@@ -98,6 +99,7 @@ func genC12(w *World, res *CheckResult) {
 		"strconv.ParseInt / ParseFloat are exact (trusted); strings.Replace / Contains / ContainsAny are uninterpreted predicates of the token text",
 		"NOT under contract: escape decoding (unescape, unescapeChar, scanString) and the numeric grammar of scanNumber — they need a string theory this engine does not have (strings are opaque); see DESIGN.md")
 	genLexerPositions(w, res)
+	genUnescapeFlow(w, res)
 }
 
 // genLexerPositions: next and backup maintain loc/prev consistently with end/width.
@@ -151,4 +153,48 @@ func TestVerifReplay(t *testing.T) {
 func init() {
 	registerProp(&propDef{id: "C12", level: "proof", gen: genC12, replay: c12Replay,
 		expl: "number classification of the parser decided on the real parsePrimaryExpression (hex spelling -> ParseInt base 0, decimal -> ParseInt base 10, '.'/exponent -> ParseFloat); lexer position bookkeeping of next/backup/emitValue/ignore under contract"})
+}
+
+// genUnescapeFlow: newline normalisation is applied to the source text of the
+// literal, never to decoded characters — an escaped \r must stay a carriage
+// return (syntactic data-flow obligation over the SSA of lexer.unescape).
+func genUnescapeFlow(w *World, res *CheckResult) {
+	fn := w.Func("lexer.unescape")
+	o := &Obligation{Name: "lexer.unescape/normalizes-source-only", Kind: "post", Expect: "unsat", Backend: "syntactic", Func: "lexer.unescape", Meta: map[string]string{}, Status: "undecided"}
+	res.Obls = append(res.Obls, o)
+	if fn == nil {
+		o.Status, o.Output = "missing", "lexer.unescape not found"
+		return
+	}
+	res.Functions = append(res.Functions, "lexer.unescape")
+	var bad []string
+	nrep := 0
+	for _, b := range fn.Blocks {
+		for _, in := range b.Instrs {
+			switch x := in.(type) {
+			case *ssa.Call:
+				if f, ok := x.Call.Value.(*ssa.Function); ok && strings.HasSuffix(f.String(), "strings.Replacer).Replace") {
+					nrep++
+					if _, isParam := x.Call.Args[len(x.Call.Args)-1].(*ssa.Parameter); !isParam {
+						bad = append(bad, "Replace is applied to a value other than the literal's source text")
+					}
+				}
+			case *ssa.Return:
+				if len(x.Results) == 2 {
+					if c, isNil := x.Results[1].(*ssa.Const); isNil && c.IsNil() {
+						// successful return: the decoded bytes, converted and nothing else
+						if _, ok := x.Results[0].(*ssa.Convert); !ok {
+							bad = append(bad, "the successful result is not the decoded buffer itself")
+						}
+					}
+				}
+			}
+		}
+	}
+	if len(bad) == 0 {
+		o.Status = "discharged"
+		o.Output = fmt.Sprintf("%d normalisation call(s), each on the parameter; the result is string(buf)", nrep)
+	} else {
+		o.Output = strings.Join(bad, "; ")
+	}
 }
